@@ -126,6 +126,48 @@ Proof.
   destruct (D <? frames * (D + 1)) eqn:E; [reflexivity|nia].
 Qed.
 
+Lemma rec_mixed_code_is_guarded : forall D m between slots frames depth,
+  1 <= slots -> (guard_limit + 2) * frames <= D ->
+  fault_raw code_sites D (FRecMixed m between slots frames depth) <> RFatal.
+Proof.
+  intros D m between slots frames depth Hs HD. cbn [fault_raw].
+  destruct (slots =? 0) eqn:E0; [lia|].
+  destruct (depth <=? (guard_limit + 1) / slots) eqn:E1.
+  - assert ((guard_limit + 1) / slots <= guard_limit + 1) by (apply N.div_le_upper_bound; nia).
+    destruct (D <? frames * depth) eqn:E2; [|discriminate]. unfold guard_limit in *. nia.
+  - cbn [mem_str s_fresh code_sites]. rewrite (rec_shared_is_panic D 0 slots frames Hs HD). discriminate.
+Qed.
+
+(* a method that forgets its callers' depth lets a mixed recursion with short direct segments run to any depth *)
+Lemma rec_mixed_fresh_fatal : forall S D m between slots frames,
+  mem_str m (s_fresh S) = true -> 1 <= slots -> 1 <= frames -> (between + 1) * slots <= guard_limit ->
+  fault_raw S D (FRecMixed m between slots frames (D + guard_limit + 2)) = RFatal.
+Proof.
+  intros S D m between slots frames Hm Hs Hf Hb. cbn [fault_raw]. rewrite Hm.
+  destruct (slots =? 0) eqn:E0; [lia|].
+  assert ((guard_limit + 1) / slots <= guard_limit + 1) by (apply N.div_le_upper_bound; nia).
+  destruct (D + guard_limit + 2 <=? (guard_limit + 1) / slots) eqn:E1; [lia|].
+  destruct ((between + 1) * slots <=? guard_limit) eqn:E2; [|lia].
+  destruct (D <? frames * (D + guard_limit + 2)) eqn:E3; [reflexivity|nia].
+Qed.
+
+(* depth bookkeeping: a private stack created below p continues at p's depth; frames keep the depth;
+   a successful push happened at a depth <= 10000 and raises it by one *)
+Lemma below_inherits_depth : forall p, stk_depth (stk_below p) = stk_depth p.
+Proof. intros p. unfold stk_below. unfold stk_depth. cbn [k_base k_offs k_size]. unfold stk_depth. lia. Qed.
+
+Lemma frame_keeps_depth : forall s n, n <= k_size s -> stk_depth (stk_frame s n) = stk_depth s.
+Proof. intros s n H. unfold stk_depth, stk_frame. simpl. lia. Qed.
+
+Lemma push_guards_depth : forall s len s' len',
+  k_offs s + k_size s = len -> stk_push s len = Some (s', len') ->
+  stk_depth s <= guard_limit /\ stk_depth s' = stk_depth s + 1.
+Proof.
+  intros s len s' len' Hn H. unfold stk_push in H. rewrite Hn in H. rewrite N.eqb_refl in H.
+  destruct (guard_limit <? k_base s + len) eqn:E; [discriminate|]. inversion H; subst.
+  unfold stk_depth. simpl. lia.
+Qed.
+
 Lemma rec_noslot_is_fatal : forall S D top frames, fault_raw S D (FRecShared top 0 frames) = RFatal.
 Proof. reflexivity. Qed.
 
